@@ -147,6 +147,14 @@ def random_map_case(rng: random.Random, nf: int, *, max_rank: int = 3, max_size:
         rng.shuffle(params)
         fd["params"] = params
         funcs.append(fd)
+    # a mapped root array may have a (differently sized) array default that the inputs override; a scalar root may have a
+    # default that is used because no input is given
+    for fd in funcs:
+        for p in fd["params"]:
+            if p in roots and p in arrays and p.startswith("x") and rng.random() < 0.12 \
+                    and not any(p in (g.get("defaults") or {}) for g in funcs):
+                shape = [sizes[a] + 1 for a in arrays[p]]
+                fd["defaults"][p] = _arr("dflt_" + p, shape)
     desc = {"funcs": funcs}
     used = {p for fd in funcs for p in fd["params"]}
     inputs = [[n, v] for n, v in roots.items() if n in used]
